@@ -30,7 +30,15 @@ def main():
     os.makedirs(core.WORK, exist_ok=True)
     _run_lock = open(os.path.join(core.WORK, "run.lock"), "w")
     other_tree = os.path.realpath(os.environ.get("VERIF_REPO") or "/repo") != os.path.realpath("/repo")
-    fcntl.flock(_run_lock, fcntl.LOCK_EX if other_tree else fcntl.LOCK_SH)
+    # a second lock gives the exclusive runner priority (flock itself lets a stream of shared holders starve it)
+    _want_lock = open(os.path.join(core.WORK, "run.want"), "w")
+    if other_tree:
+        fcntl.flock(_want_lock, fcntl.LOCK_EX)
+        fcntl.flock(_run_lock, fcntl.LOCK_EX)
+    else:
+        fcntl.flock(_want_lock, fcntl.LOCK_SH)
+        fcntl.flock(_run_lock, fcntl.LOCK_SH)
+        fcntl.flock(_want_lock, fcntl.LOCK_UN)
     try:
         if a.replay:
             return core.replay(mod, a.replay)
